@@ -63,7 +63,8 @@ def run(ctx):
                          ["-", "N", "JR", "JRAS", "JRASO", "JRWPASDO"], kinds, ["C05"])
     behs, _ = world.simulate(ctx, "SimC05", cw, 600 if thorough else 100, 16 if thorough else 14, ctx.seed)
     # goal-directed p2p histories (one side unsubscribes and comes back while the topic stays loaded / after a reload ...)
-    gb = world.goal_behaviours(ctx, users, sess, topics, names=list(world.P2P_GOALS))
+    gb = world.goal_behaviours(ctx, users, sess, topics, names=list(world.P2P_GOALS) + ["pending_transfer_accepted", "pending_transfer", "admin_not_owner",
+                                                                         "sharer_only", "admin_want_exceeds_given", "banned_live"])
     behs = [b for _, b in sorted(gb.items())] + behs
     bj = world.behaviours_json(behs, users, sess, topics)
     trace, _ = world.replay(ctx, bj)
